@@ -79,3 +79,17 @@ Theorem C20_held_shift_lost_after_forced_reset :
   down 42 false (snd (zrun ex20_cfg z_init (ex20_ops 10001))) = false.
 Proof. exact held_shift_lost_after_forced_reset. Qed.
 Print Assumptions C20_held_shift_lost_after_forced_reset.
+
+(* ---- typing that does not form a chord passes through unchanged ---- *)
+Theorem C20_outside_key_passes_through : forall c z osc,
+  z_en z = ZEnabled -> z_ss_sent z = false -> z_prio z = None ->
+  osc <> 42 -> osc <> 54 -> osc <> 100 -> is_zippy_ignored osc = false ->
+  zlookup (zc_chords c) (sorted_insert osc (z_keys z)) = ZNeither ->
+  snd (z_press c z osc) = [ZP osc] /\ (zentries (zc_chords c) <> [] -> z_en (fst (z_press c z osc)) = ZDisabled).
+Proof. exact outside_key_passes_through. Qed.
+Print Assumptions C20_outside_key_passes_through.
+
+Theorem C20_disabled_passes_through : forall c z osc,
+  z_en z <> ZEnabled -> z_ss_sent z = false -> snd (z_press c z osc) = [ZP osc].
+Proof. exact disabled_passes_through. Qed.
+Print Assumptions C20_disabled_passes_through.
